@@ -166,7 +166,7 @@ func mkSpec(chain string) spectypes.Spec {
 	spec := common.CreateMockSpec()
 	spec.Index = chain
 	spec.Name = chain
-	spec.MinStakeProvider = sdk.NewCoin(spec.MinStakeProvider.Denom, sdk.NewInt(100))
+	spec.MinStakeProvider = sdk.NewCoin(spec.MinStakeProvider.Denom, sdk.NewInt(1)) // dust stakes are legal on this spec
 	ext := []*spectypes.Extension{{Name: "e"}, {Name: "f"}}
 	cols := []*spectypes.ApiCollection{}
 	for _, ifc := range []string{"x", "y"} {
@@ -624,6 +624,10 @@ func TestDrive(t *testing.T) {
 		}
 		c := chainx.New(t, seed)
 		ts := c.TS
+		// C40 needs scores that are tiny integers: allow stakes of a few ulava (the test default is 100)
+		dsp := ts.Keepers.Dualstaking.GetParams(ts.Ctx)
+		dsp.MinSelfDelegation.Amount = math.NewInt(1)
+		ts.Keepers.Dualstaking.SetParams(ts.Ctx, dsp)
 		vacc, _ := c.AddAccount(common.VALIDATOR, 0, 100000000)
 		ts.TxCreateValidator(vacc, math.NewInt(10000000))
 		bs := []*built{}
